@@ -209,7 +209,7 @@ func runC20(r *Report, tier string) {
 			continue
 		}
 		// helpers that return bytes: Sign1, Sign1Untagged, SignHashEnvelope (Countersign0 returns the raw signature, not a message)
-		for _, x := range P.factsOf(fn).exits {
+		for _, x := range P.deepExits(fn, func(h *ssa.Function) bool { return !encs[shortFn(h)] }) {
 			if x.kind == exitFailure {
 				continue
 			}
